@@ -501,6 +501,12 @@ func (e *Engine) intrinsic(name string, fn *ssa.Function, args []Value) (Value, 
 			n += c
 		}
 		return e.intConst(64, int64(n)), true
+	case "vTermWatch": // closing one of these channels is the goroutine's termination signal: no blocking operation may follow
+		sl := args[0].(SliceV)
+		for i := 0; i < sl.Len; i++ {
+			e.termWatch[chanOf(e.load(sl.B.cells[sl.Off+i]))] = true
+		}
+		return nil, true
 	case "vDecline":
 		e.declined = true
 		return nil, true
@@ -513,6 +519,8 @@ func (e *Engine) intrinsic(name string, fn *ssa.Function, args []Value) (Value, 
 	case "vTickBudget":
 		e.path.ticksLeft = e.concreteInt(args[0].(*Term), "vTickBudget")
 		return nil, true
+	case "vTimeOf":
+		return unwrapAny(args[0]).(*StructV).F[1], true
 	case "vNow":
 		e.clockInit()
 		return e.path.now, true
@@ -537,7 +545,26 @@ func (e *Engine) intrinsic(name string, fn *ssa.Function, args []Value) (Value, 
 	case "vRunSpawned":
 		i := e.concreteInt(args[0].(*Term), "vRunSpawned")
 		s := e.spawned[i]
+		e.spawnRan[i] = true
 		e.invoke(s.call, s.fn, s.args)
+		return nil, true
+	case "vRunLeftoverSpawned":
+		// C19: every goroutine the code started and the harness did not run explicitly must end by itself now
+		// that the discipline has terminated; it is run here and may neither block nor spin.
+		for i := 0; i < len(e.spawned); i++ {
+			if e.spawnRan[i] {
+				continue
+			}
+			e.spawnRan[i] = true
+			s := e.spawned[i]
+			e.h.Expect["GOROUTINE-LEAK"] = "fail:C19: a goroutine started by the discipline does not end after the discipline terminated"
+			e.inLeftover = true
+			save := e.maxInstr
+			e.maxInstr = e.path.instrs + 300000
+			e.invoke(s.call, s.fn, s.args)
+			e.maxInstr = save
+			e.inLeftover = false
+		}
 		return nil, true
 	case "vSpawnedIs": // does the i-th spawned goroutine run the named function?
 		i := e.concreteInt(args[0].(*Term), "vSpawnedIs")
